@@ -56,6 +56,8 @@ def same_tree(a, b, text):
 
 def oracle(ctx, g, m, text, case, acc):
     st = structure(m)
+    if sum(1 for _ in nodes(m)) > 4:
+        acc.nontrivial += 1
     # --- pickle, every protocol
     for proto in range(2, pickle.HIGHEST_PROTOCOL + 1):
         try:
@@ -134,8 +136,6 @@ def oracle(ctx, g, m, text, case, acc):
                     return acc.fail(('refactor-pair',), case, '%r,%r: %r != %r' % (cand[i], cand[j], got, exp))
     if structure(m) != st:
         return acc.fail(('tree-modified-by-refactor',), case)
-    if len(allnodes) > 4:
-        acc.nontrivial += 1
 
 
 def recheck(case):
